@@ -10,7 +10,8 @@ META = {
                    'tested lock-bit-clear; blocking only on the success edge of cmpxchg(s -> s+2) taken with the bit '
                    'set; unlock-with-waiters is cmpxchg(s -> s-2) then dequeue(non-null) then clear-lock-bit '
                    '(atomic sub 1) then push of the dequeued thread, in that order on every path; trylock closure '
-                   'has no context switch; timedlock never enqueues; sleep-queue ilock paired on all paths.',
+                   'has no context switch; timedlock never enqueues; sleep-queue ilock paired on all paths.'
+                   ' A locker that sees the lock bit set goes on to reserve a seat (a bounded, counter-guarded spin is tolerated); the initialiser writes every field the operations read (C04.6).',
     'not_decided': 'eventual return of every lock call and fairness (liveness under all schedules); mutual exclusion '
                    'as a property of all interleavings is reduced to the single-CAS acquisition shape',
     'assumptions': ['x86-64: cmpxchg / lock-prefixed RMW are sequentially consistent full barriers',
